@@ -40,9 +40,8 @@ Proof. exact qos1_acked_then_delivered. Qed.
 Theorem C04_qos2_first_arrival : forall s t id r d ps pl s' hr,
   handle_packet s (RPublish t (Some id) Q2 r d ps pl) = (s', hr) ->
   mem_id id (s_srv s) = false -> glen (s_srv s) < MAX_INBOUND_QOS2 ->
-  s_srv s' = s_srv s ++ [id] /\
-  ((hr = HOk true /\ ack_appended s s' (CPubRec id 0)) \/
-   (s' = set_srv s (s_srv s ++ [id]) /\ refused (set_srv s (s_srv s ++ [id])) (CPubRec id 0) hr)).
+  (hr = HOk true /\ ack_appended s s' (CPubRec id 0) /\ s_srv s' = s_srv s ++ [id]) \/
+  (s' = s /\ refused s (CPubRec id 0) hr).
 Proof. exact qos2_first_arrival. Qed.
 
 Theorem C04_qos2_duplicate_not_delivered : forall s t id r d ps pl s' hr,
